@@ -13,6 +13,7 @@ import (
 	"fmt"
 	"math"
 	"strings"
+	"time"
 
 	geom "github.com/twpayne/go-geom"
 	"github.com/twpayne/go-geom/encoding/igc"
@@ -52,6 +53,34 @@ type Scenario struct {
 	Edits     []simio.Edit   `json:"edits,omitempty"`
 	Read      simio.ReadPlan `json:"read"`
 	WriteFail int            `json:"write_fail"` // >= 0: the encoder's writer fails there (reach only)
+	// TZ is the process-wide local time zone (time.Local) during the run, in
+	// seconds east of UTC; 0 = UTC. Timestamps are UTC by the format whatever
+	// the zone of the process.
+	TZ int `json:"tz,omitempty"`
+	// Reuse: one igc.Encoder value writes the whole track and then every
+	// prefix track, each into its own output (clean mode).
+	Reuse bool `json:"reuse,omitempty"`
+}
+
+// switchWriter lets one Encoder write successive tracks into separate outputs.
+type switchWriter struct{ w *simio.Writer }
+
+func (s *switchWriter) Write(p []byte) (int, error) { return s.w.Write(p) }
+
+// session is the encoder state shared by the checkTrack calls of one run.
+type session struct {
+	enc *igc.Encoder
+	sw  *switchWriter
+}
+
+func setZone(tz int) func() {
+	old := time.Local
+	if tz != 0 {
+		time.Local = time.FixedZone("SIM", tz)
+	} else {
+		time.Local = time.UTC
+	}
+	return func() { time.Local = old }
 }
 
 type prop struct{}
@@ -70,7 +99,7 @@ func (prop) Plan(tier string) []core.Phase {
 func (prop) Describe() core.Description {
 	return core.Description{
 		Level: "exploration",
-		Rule: "Phase 'clean': a generated track (0-200 fixes; longitude in [-180,180] and latitude in [-90,90] biased to 0, the poles, the antimeridian and values within an ulp of k/60000; altitude biased to 0, 10000 and beyond; non-decreasing whole or fractional seconds from 1970-01-01 to 2069-12-31 biased to midnight, month, year and century boundaries and multi-day gaps) is written by igc.Encoder with an A record into a simulated writer and read back through a seeded read plan (chunk sizes, bounded stalls, data+EOF); every prefix of short tracks is checked the same way. Phase 'faulty': the encoder's output or a hand-composed record stream (A/H/I/B/other records, forged I-record tables, short/long/garbled B records, BOM/XOFF/noise before A, CRLF) is corrupted on the medium (drop/dup/swap/tear lines, >64KiB lines, truncation, bit flips, byte sets) and read through a plan that may also fail or stall forever. A run is non-trivial when a read directive or medium edit actually fired on a stream holding at least one B record.",
+		Rule: "Phase 'clean': a generated track (0-200 fixes; longitude in [-180,180] and latitude in [-90,90] biased to 0, the poles, the antimeridian and values within an ulp of k/60000; altitude biased to 0, 10000 and beyond; non-decreasing whole or fractional seconds from 1970-01-01 to 2069-12-31 biased to midnight, month, year and century boundaries and multi-day gaps) is written by igc.Encoder with an A record into a simulated writer and read back through a seeded read plan (chunk sizes, bounded stalls, data+EOF); every prefix of short tracks is checked the same way, in 40% of the runs by the same Encoder value writing one track after another into separate outputs; in 40% of the runs the process-wide local time zone (time.Local) is a seeded non-UTC zone. Phase 'faulty': the encoder's output or a hand-composed record stream (A/H/I/B/other records, forged I-record tables, short/long/garbled B records, BOM/XOFF/noise before A, CRLF) is corrupted on the medium (drop/dup/swap/tear lines, >64KiB lines, truncation, bit flips, byte sets) and read through a plan that may also fail or stall forever. A run is non-trivial when a read directive or medium edit actually fired on a stream holding at least one B record.",
 		StateMeasure: "distinct (mode, number of fixes bucket, day-boundary crossings, record-letter sequence prefix, fault kinds fired) tuples",
 		Assumptions: []string{
 			"format resolution is taken from the property statement: 1/60000 degree, whole seconds, integer altitude clamped to 0..10000",
@@ -80,7 +109,7 @@ func (prop) Describe() core.Description {
 		RealComponents: []string{"encoding/igc (Encoder.Encode, Read and its parser)", "go-geom LineString", "stdlib bufio.Scanner, fmt, regexp, time"},
 		StubComponents: []string{"io.Writer under the encoder (simio.Writer)", "the medium between writer and reader (line and byte edits)", "io.Reader under the decoder (simio.Reader: chunking, stalls incl. unbounded, data+EOF, error at offset, truncation)"},
 		FaultKinds:     []string{"read-split", "read-stall", "read-data+eof", "read-error", "read-truncate", "stall-forever", "line-drop", "line-dup", "line-swap", "line-tear", "line-long", "byte-edit", "write-fail"},
-		Probes:         []string{"probe:year<2000", "probe:year-rollover", "probe:day-rollover", "probe:lat==+-90", "probe:lon==+-180", "probe:alt-clamped", "probe:fractional-second", "probe:I-record", "probe:I-record-extends-B", "probe:B-shorter-than-announced", "probe:line>64KiB", "probe:torn-inside-B", "probe:noise-before-A", "probe:record-errors-returned", "probe:prefix-tracks"},
+		Probes:         []string{"probe:year<2000", "probe:year-rollover", "probe:day-rollover", "probe:lat==+-90", "probe:lon==+-180", "probe:alt-clamped", "probe:fractional-second", "probe:I-record", "probe:I-record-extends-B", "probe:B-shorter-than-announced", "probe:line>64KiB", "probe:torn-inside-B", "probe:noise-before-A", "probe:record-errors-returned", "probe:prefix-tracks", "probe:encoder-reused", "probe:local-zone-not-utc"},
 	}
 }
 
@@ -110,6 +139,12 @@ func (prop) Decode(raw []byte) (any, error) {
 			return nil, fmt.Errorf("bad timestamp")
 		}
 		prev = t
+	}
+	if s.TZ < -14*3600 || s.TZ > 14*3600 {
+		return nil, fmt.Errorf("bad time zone")
+	}
+	if s.Reuse && s.Mode != "clean" {
+		return nil, fmt.Errorf("reuse outside clean mode")
 	}
 	if s.Mode == "clean" {
 		if len(s.Lines) > 0 || len(s.LineEdits) > 0 || len(s.Edits) > 0 || s.WriteFail >= 0 {
@@ -404,7 +439,11 @@ func (prop) Generate(r *prng.Rand, phase string) any {
 			s.Read.Dirs = append(s.Read.Dirs, simio.Dir{K: simio.DataEOF, N: sizes[r.Intn(len(sizes))]})
 		}
 	}
+	if r.Chance(0.4) {
+		s.TZ = []int{-12 * 3600, -9*3600 - 1800, -5 * 3600, -3600, 3600, 2 * 3600, 5*3600 + 2700, 9 * 3600, 13 * 3600, 14 * 3600}[r.Intn(10)]
+	}
 	if phase == "clean" {
+		s.Reuse = r.Chance(0.4)
 		return s
 	}
 	if len(s.Fixes) > 30 {
@@ -477,11 +516,27 @@ func clampAlt(alt float64) float64 {
 
 // checkTrack encodes fixes, reads them back through plan and applies the
 // clean-pipe oracle.
-func checkTrack(res *core.Result, log *core.Log, s *Scenario, fixes []Fix, plan simio.ReadPlan, what string) bool {
+func checkTrack(res *core.Result, log *core.Log, s *Scenario, ses *session, fixes []Fix, plan simio.ReadPlan, what string) bool {
 	ls := buildTrack(s.Layout, fixes)
 	w := simio.NewWriter(simio.WritePlan{FailAt: -1})
 	var err error
-	if p := core.Guard(func() { err = igc.NewEncoder(w, igc.A(s.A)).Encode(ls) }); p != "" {
+	var enc *igc.Encoder
+	if ses != nil {
+		// the same Encoder value as for the earlier tracks of this run, this
+		// track's output going to its own writer
+		if ses.enc == nil {
+			ses.sw = &switchWriter{}
+			ses.enc = igc.NewEncoder(ses.sw, igc.A(s.A))
+		} else {
+			res.Count("probe:encoder-reused", 1)
+			what += " (encoder reused)"
+		}
+		ses.sw.w = w
+		enc = ses.enc
+	} else {
+		enc = igc.NewEncoder(w, igc.A(s.A))
+	}
+	if p := core.Guard(func() { err = enc.Encode(ls) }); p != "" {
 		res.Fail("panic", "panic:encode:"+core.PanicSite(p), "Encode panicked (%s): %s", what, p)
 		return false
 	}
@@ -629,22 +684,30 @@ func trackProbes(res *core.Result, fixes []Fix) (crossings int) {
 func (prop) Execute(scAny any, phase string, log *core.Log) core.Result {
 	s := scAny.(*Scenario)
 	var res core.Result
+	defer setZone(s.TZ)()
+	if s.TZ != 0 {
+		res.Count("probe:local-zone-not-utc", 1)
+	}
 	if s.Mode == "clean" {
 		crossings := trackProbes(&res, s.Fixes)
-		if !checkTrack(&res, log, s, s.Fixes, s.Read, "whole track") {
+		var ses *session
+		if s.Reuse {
+			ses = &session{}
+		}
+		if !checkTrack(&res, log, s, ses, s.Fixes, s.Read, "whole track") {
 			return res
 		}
 		fired := res.Counters["read-split"]+res.Counters["read-stall"]+res.Counters["read-data+eof"] > 0
 		if len(s.Fixes) <= 24 {
 			for n := 0; n < len(s.Fixes); n++ {
 				res.Count("probe:prefix-tracks", 1)
-				if !checkTrack(&res, log, s, s.Fixes[:n], s.Read, fmt.Sprintf("prefix of %d fixes", n)) {
+				if !checkTrack(&res, log, s, ses, s.Fixes[:n], s.Read, fmt.Sprintf("prefix of %d fixes", n)) {
 					return res
 				}
 			}
 		}
 		res.Nontrivial = len(s.Fixes) >= 1 && fired
-		res.StateKey = fmt.Sprintf("clean|%d|%d|%d|%v", bucket(len(s.Fixes)), crossings, s.Layout, fired)
+		res.StateKey = fmt.Sprintf("clean|%d|%d|%d|%v|%v|%v", bucket(len(s.Fixes)), crossings, s.Layout, fired, s.Reuse, s.TZ != 0)
 		return res
 	}
 	return faulty(s, log)
